@@ -31,6 +31,15 @@ ASSUMPTIONS = ["names and expressions are ASCII; names are over [A-Za-z0-9._+-] 
                "components have fewer than 4300 digits (CPython's int/str conversion limit)",
                "VersionCompare.stdCompare is entered with suffix=True only (compare/__call__ and its own recursive calls)"]
 
+MIRRORS = [("python/eups/VersionCompare.py", "*"), ("python/eups/hooks.py", "*"),
+           ("python/eups/Eups.py", "Eups.version_match"), ("python/eups/Eups.py", "Eups.version_match_prim"),
+           ("python/eups/Eups.py", "Eups.isLegalRelativeVersion"),
+           ("python/eups/Eups.py", "Eups._findLatestProduct"), ("python/eups/Eups.py", "Eups._selectPreferredProduct"),
+           ("python/eups/Eups.py", "Eups._findProductsByExpr"), ("python/eups/Eups.py", "Eups._findPreferredProductByExpr"),
+           ("python/eups/Eups.py", "Eups.findTaggedProduct"), ("python/eups/Eups.py", "Eups._findTaggedProduct"),
+           ("python/eups/db/Database.py", "_Database.findProducts"), ("python/eups/db/Database.py", "_cmp_by_verflav"),
+           ("python/eups/stack/ProductStack.py", "ProductStack.getVersions"), ("python/eups/stack/ProductFamily.py", "ProductFamily.getVersions")]
+
 WORKERS = 4
 MODEL_FLAGS = {"pinned": True} if os.environ.get("C10_MODEL") == "pinned" else {}     # development aid, see docs/notes/g10.md
 
@@ -254,11 +263,82 @@ def impl_stack(case):
     return res
 
 
+LIST_TAGS = ("current", "beta")     # global tags of the scratch stacks (common.mkstacks); "latest" is the pseudo-tag
+
+
+def _list_build(case):
+    root = common.scratch("c10l")
+    stacks, _ = common.mkstacks(root, nstacks=len(case["stacks"]))
+    e = common.new_eups()
+    with contextlib.redirect_stderr(io.StringIO()), contextlib.redirect_stdout(io.StringIO()):
+        first = None
+        for si, decls in enumerate(case["stacks"]):
+            for d in decls:
+                pd = common.mkprod(stacks[si], "prod", d["ver"])
+                e.declare("prod", d["ver"], pd, eupsPathDir=stacks[si])
+                if first is None:
+                    first = (si, d["ver"])
+        if first is not None:
+            # the very first declaration of a product is made `current` by declare(); the case says who carries which tag
+            e.unassignTag("current", "prod", first[1], eupsPathDir=stacks[first[0]])
+        for si, decls in enumerate(case["stacks"]):
+            for d in decls:
+                for t in d["tags"]:
+                    e.assignTag(t, "prod", d["ver"], eupsPathDir=stacks[si])
+    return root, stacks
+
+
+def _list_query(case, root, stacks):
+    """Eups.findProducts(name, version, tags) — what `eups list prod <version> -t <tag>` prints — in a fresh process."""
+    os.environ["EUPS_PATH"] = ":".join(stacks)
+    os.environ["EUPS_USERDATA"] = os.path.join(root, "userdataA")
+    from eups import utils
+    utils.stdwarn = io.StringIO()
+    e = common.new_eups()
+    # the stacks are what the case says (otherwise nothing below means anything)
+    for si, decls in enumerate(case["stacks"]):
+        for d in decls:
+            p = e.findProduct("prod", d["ver"], eupsPathDirs=[stacks[si]])
+            if p is None or sorted(t for t in p.tags if t in LIST_TAGS) != sorted(d["tags"]):
+                raise common.InfraError("stack %d: %r should carry %r, has %r" % (si, d["ver"], d["tags"], p and p.tags))
+    try:
+        with contextlib.redirect_stderr(io.StringIO()), contextlib.redirect_stdout(io.StringIO()):
+            ps = e.findProducts("prod", version=(case["version"] or None), tags=(list(case["tags"]) or None))
+        res = [[stacks.index(p.stackRoot()), p.version] for p in ps]
+    except IndexError:
+        res = {"err": "IndexError"}
+    except AttributeError:
+        res = {"err": "Malformed"}
+    except Exception as ex:  # noqa
+        res = {"err": "BadExpr" if type(ex).__name__ == "EupsException" else "E:" + type(ex).__name__}
+    allv = list(dict.fromkeys(d["ver"] for st in case["stacks"] for d in st))
+    return {"products": res,
+            "terms": {v: [impl_cmp(v, tv, True) for _, tv in case["terms"]] for v in allv},
+            "order": {v: "".join(impl_cmp(w, v, False) for w in allv) for v in allv}}
+
+
+def impl_list(case):
+    r = common.in_child(_list_build, case)
+    if r[0] != "ok":
+        raise common.InfraError("building the stacks of a listing case failed: %r" % (r,))
+    root, stacks = r[1]
+    try:
+        q = common.in_child(_list_query, case, root, stacks)
+        if q[0] != "ok":
+            raise common.InfraError("listing failed: %r" % (q,))
+        return q[1]
+    finally:
+        common.rmtree(root)
+
+
 def impl_small(jobs):
     out = []
     for c in jobs:
         if c["kind"] == "stack":
             out.append(impl_stack(c))
+            continue
+        if c["kind"] == "list":
+            out.append(impl_list(c))
             continue
         out.append(impl_match(c) if c["kind"] == "match" else impl_legal(c) if c["kind"] == "legal" else impl_latest(c))
     if _E is not None:
@@ -458,13 +538,15 @@ def eval_small(ctx, cases):
     """match and latest cases"""
     if not cases:
         return
-    impl = impl_small_forked(cases, WORKERS if (len(cases) > 200 or cases[0]["kind"] == "stack") else 1)
+    impl = impl_small_forked(cases, WORKERS if (len(cases) > 200 or cases[0]["kind"] in ("stack", "list")) else 1)
     reqs = []
     for c in cases:
         if c["kind"] == "match":
             reqs.append({"m": "c10", "op": "match", "v": c["v"], "expr": c["expr"]})
         elif c["kind"] == "legal":
             reqs.append({"m": "c10", "op": "legal", "expr": c["expr"]})
+        elif c["kind"] == "list":
+            reqs.append({"m": "c10", "op": "list", "version": c["version"], "tags": c["tags"], "stacks": c["stacks"]})
         elif c["kind"] == "stack":
             reqs.append({"m": "c10", "op": "stacksboth", "stacks": c["stacks"], "expr": c["expr"], "minver": c.get("minver") or ""})
         else:
@@ -476,6 +558,8 @@ def eval_small(ctx, cases):
         inp = {k: v for k, v in c.items() if not k.startswith("_")}
         if c["kind"] == "stack":
             eval_stack(ctx, c, inp, io_, ans)
+        elif c["kind"] == "list":
+            eval_list(ctx, c, inp, io_, ans)
         elif c["kind"] == "legal":
             ctx.case(key=("g", c["expr"]), nontrivial=bool(c["expr"].strip()),
                      sample={"input": inp, "impl": io_} if ctx.evaluations % 997 == 11 else None)
@@ -494,7 +578,7 @@ def eval_small(ctx, cases):
                      sample={"input": inp, "impl": io_} if ctx.evaluations % 9973 == 5 else None)
             ctx.hist("match/outcome=" + io_["r"])
             ctx.hist("match/terms=%d" % len(c["terms"]))
-            ctx.hist("match/pure-or-chain" if c.get("pure") else "match/other")
+            ctx.hist("match/pure-or-chain" if c.get("pure") else "match/enumerated-token-sequence" if c.get("enum") else "match/other")
             ex_ = c["expr"]
             for key, hit in (("match/text:word-or", " or " in ex_), ("match/text:and", "&&" in ex_ or " and " in ex_),
                              ("match/text:no-blank-after-operator", bool(L.re.search(r"[<>=][^\s<>=]", ex_))),
@@ -545,6 +629,16 @@ def eval_small(ctx, cases):
                         ctx.fail("latest_first_with_that_name", inp, io_cmp, mo, note="a later duplicate was returned")
             elif c.get("conventional"):
                 ctx.fail("latest_no_crash", inp, io_cmp, mo, note="selection raised on conventional names")
+
+
+def eval_chunks(ctx, cases, size):
+    """eval_small in pieces, so that the time limit is looked at in between (the search after a correspondence break
+    runs under the quick tier's limit with a larger budget)"""
+    for i in range(0, len(cases), size):
+        if ctx.out_of_time():
+            ctx.note("time limit reached after %d of %d %s cases" % (i, len(cases), cases[i]["kind"]))
+            break
+        eval_small(ctx, cases[i:i + size])
 
 
 def canon_stack_model(ans):
@@ -641,6 +735,147 @@ def eval_stack(ctx, c, inp, io_, ans):
                     check_max("latest_of_matches_is_max", pr, [i for i in everything if allv[i] in matched], "latest of the matches")
 
 
+def eval_list(ctx, c, inp, io_, ans):
+    """Eups.findProducts(name, version, tags): the listing entry point."""
+    import fnmatch
+    stacks, tags, arg = c["stacks"], c["tags"], c["version"]
+    allv = list(dict.fromkeys(d["ver"] for st in stacks for d in st))
+    ctx.case(key=("L", json.dumps(stacks), arg, tags), nontrivial=len(allv) > 1,
+             sample={"input": inp, "impl": io_["products"]} if ctx.evaluations % 97 == 3 else None)
+    ctx.hist("list/arg=" + c["argkind"])
+    ctx.hist("list/tags=" + ("+".join(tags) or "none"))
+    got = io_["products"]
+    mo = ans["products"] if "products" in ans else {"err": ans["err"]}
+    if got != mo:
+        ctx.disagree("findProducts", inp, got, mo)
+    if isinstance(got, dict):
+        ctx.hist("list/outcome=" + got["err"])
+        if c["argkind"] in ("expr", "none", "glob") and c.get("pure", True):
+            ctx.fail("list_no_crash", inp, got, mo, note="listing raised %s" % got["err"])
+        return
+    ctx.hist("list/outcome=%s" % ("some" if got else "nothing"))
+
+    # ---- oracle (ii): from the case description and the implementation's own comparisons
+    def satisfies(v):
+        if c["argkind"] == "none":
+            return True
+        if c["argkind"] == "glob":
+            return fnmatch.fnmatchcase(v, arg)
+        ex = expected_match(c, {"terms": io_["terms"][v]})
+        return None if ex is None else ex[1] == "match"
+
+    decided = c["argkind"] in ("none", "glob") or (c["argkind"] == "expr" and c.get("pure"))
+    sat = {v: satisfies(v) for v in allv} if decided else {}
+    if decided and any(x is None for x in sat.values()):
+        decided = False
+    decl = {(i, d["ver"]): d["tags"] for i, st in enumerate(stacks) for d in st}
+
+    def is_max_of_stack(i, v):
+        col = io_["order"][v]
+        return all(col[allv.index(d["ver"])] in "<=" for d in stacks[i])
+
+    for i, v in got:
+        if (i, v) not in decl:
+            ctx.fail("list_declared", inp, got, mo, note="%r is not declared in stack %d" % (v, i))
+    if decided:
+        wanted = [t for t in tags if t != "latest"]
+        carried = [(i, v) for (i, v), ts in decl.items() if set(ts) & set(wanted)]
+        if tags and c["argkind"] == "expr":
+            if any(not sat[v] for _, v in carried):
+                ctx.hist("list/tagged-version-fails-expression")
+            if any(sat[v] for _, v in carried):
+                ctx.hist("list/tagged-version-satisfies-expression")
+            if "latest" in tags and any(st and not any(sat[d["ver"]] and is_max_of_stack(i, d["ver"]) for d in st)
+                                        for i, st in enumerate(stacks)):
+                ctx.hist("list/latest-of-a-stack-fails-expression")
+        # THE clause: every product returned satisfies the request
+        for i, v in got:
+            if (i, v) in decl and not sat[v]:
+                ctx.fail("list_satisfies_request", inp, got, mo,
+                         note="%r (stack %d) is listed but %s" % (v, i, "compares %s with the terms" % io_["terms"][v]
+                                                                   if c["argkind"] == "expr" else "does not match the pattern"))
+                break
+        gotv = [v for _, v in got]
+        if len(set(gotv)) != len(gotv):
+            ctx.fail("list_each_version_once", inp, got, mo, note="a version is listed twice")
+        if not tags:
+            missing = [v for v in allv if sat[v] and v not in gotv]
+            if missing:
+                ctx.fail("list_complete", inp, got, mo, note="%r satisfy the request and are not listed" % missing[:3])
+            # within a stack the versions come in the order of the comparator
+            for (i, a), (j, b) in zip(got, got[1:]):
+                if i == j and io_["order"][b][allv.index(a)] not in "<=":
+                    ctx.fail("list_in_version_order", inp, got, mo, note="%r is listed before %r" % (a, b))
+                    break
+        else:
+            for i, v in got:
+                if (i, v) in decl and not (set(decl[(i, v)]) & set(wanted)) and not ("latest" in tags and is_max_of_stack(i, v)):
+                    ctx.fail("list_carries_a_tag", inp, got, mo, note="%r (stack %d) carries %r, asked for %r" % (v, i, decl[(i, v)], tags))
+                    break
+            missing = [v for (i, v) in carried if sat[v] and v not in gotv]
+            if "latest" in tags:
+                missing += [d["ver"] for i, st in enumerate(stacks) for d in st
+                            if sat[d["ver"]] and is_max_of_stack(i, d["ver"]) and d["ver"] not in gotv
+                            and not any(e_["ver"] != d["ver"] and is_max_of_stack(i, e_["ver"]) for e_ in st)]
+            if missing:
+                ctx.fail("list_tagged_complete", inp, got, mo, note="%r carry a requested tag, satisfy the request and are not listed" % missing[:3])
+
+
+def gen_lists(ctx, pool, n):
+    """Listing requests: stacks with tagged versions, a version argument (expression / shell pattern / none / refused), tags."""
+    rng = ctx.rng
+    bypre = {}
+    for nme, d in pool:
+        bypre.setdefault(d["prefix"], []).append((nme, d))
+    groups = [g for g in bypre.values() if len(g) >= 12]
+    odd = ["w9", "foo", "(", "="]
+    cases = []
+    for _ in range(n):
+        grp = rng.choice(groups)
+        base = rng.sample(grp, min(len(grp), 8))
+        d0 = dict(rng.choice(base)[1])
+        for nums in (["9"], ["10"], ["2", "0"], ["1", "9"], ["1", "10"]):
+            if rng.random() < 0.4:
+                e = dict(d0, nums=nums, seps=[rng.choice("._")] * (len(nums) - 1), pre=rng.choice([None, None, "rc2"]), post=None)
+                base.append((L.render(e), e))
+        ties = rng.random() < 0.15
+        stacks = []
+        for _s in range(rng.choice([1, 1, 2, 2, 3])):
+            st, keys = [], set()
+            for nme, d in rng.sample(base, min(len(base), rng.choice([0, 1, 2, 3, 4, 5]))):
+                k = spelling_key(d)
+                if (ties or k not in keys) and nme not in [x["ver"] for x in st]:
+                    keys.add(k)
+                    st.append({"ver": nme, "tags": []})
+            for t in LIST_TAGS:
+                if st and rng.random() < 0.65:
+                    rng.choice(st)["tags"].append(t)
+            stacks.append(st)
+        names = [nme for nme, _ in base]
+        r = rng.random()
+        terms, pure = [], True
+        if r < 0.6:
+            arg, terms, pure = L.random_expr(rng, names, odd)
+            kind = "expr"
+            if not any(op in arg for op in ("<", ">", "==")):
+                kind = "glob"          # no operator: the argument is a (literal) shell pattern
+                if any(ch in arg for ch in "[]"):
+                    continue
+        elif r < 0.75:
+            v = rng.choice(names)
+            arg = rng.choice([v, v[:max(1, len(v) // 2)] + "*", "*", "?" + v[1:], "*" + v[-1:], v + "?", v[:1] + "*" + v[-1:]])
+            kind = "glob"
+        elif r < 0.92:
+            arg, kind = "", "none"
+        else:
+            arg, kind = rng.choice(["= " + rng.choice(names), " =  " + rng.choice(names)]), "bad"
+        tags = rng.choice([[], [], ["current"], ["current"], ["latest"], ["beta"], ["current", "latest"], ["beta", "current"],
+                           ["latest", "current"], ["latest", "beta", "current"]])
+        cases.append({"kind": "list", "stacks": stacks, "version": arg, "argkind": kind, "tags": tags,
+                      "terms": [list(t) for t in terms], "pure": pure})
+    return cases
+
+
 def spelling_key(d):
     """Two descriptions with the same key are equal in any order that reads numbers numerically."""
     def part(x):
@@ -690,9 +925,9 @@ def gen_stacks(ctx, pool, n):
 # ---- generators -------------------------------------------------------------------------------------------
 
 SIZES = {   # name sets and case counts per tier; "search" is the budget of the hunt for a failing input after a correspondence break
-    "quick":    dict(g1404=300,  wide=330,  arb_sets=45,  match=2500,  latest=600,  stacks=150,  legal=600),
-    "search":   dict(g1404=1404, wide=700,  arb_sets=150, match=10000, latest=2000, stacks=450,  legal=2000),
-    "thorough": dict(g1404=1404, wide=1600, arb_sets=600, match=40000, latest=8000, stacks=2500, legal=8000),
+    "quick":    dict(g1404=300,  wide=330,  arb_sets=45,  match=2500,  latest=600,  stacks=150,  legal=600,  enum=1500, lists=110),
+    "search":   dict(g1404=1404, wide=700,  arb_sets=150, match=10000, latest=2000, stacks=450,  legal=2000, enum=8000, lists=400),
+    "thorough": dict(g1404=1404, wide=1600, arb_sets=600, match=40000, latest=8000, stacks=2500, legal=8000, enum=None, lists=2500),
 }
 
 
@@ -739,6 +974,27 @@ def gen_small(ctx, pool, n_match, n_latest):
             names.append(rng.choice(names))
         cases.append({"kind": "latest", "names": names, "conventional": True})
     return cases
+
+
+ENUM_TOKENS = [">=", "<", "==", "1.2", "1.10", "||", "or", "&&", "and", "(", "="]
+
+
+def gen_enum_exprs(ctx, n):
+    """Every sequence of 1-4 tokens of ENUM_TOKENS, joined by single blanks and joined by nothing, against the versions
+    1.2 / 1.9 / 1.10: all the malformed requests of that size (dangling and doubled operators, missing operators, unknown
+    tokens, words glued to versions).  n = how many of them (None: all, the thorough tier).  Correspondence only."""
+    import itertools
+    texts = []
+    for k in (1, 2, 3, 4):
+        for toks in itertools.product(ENUM_TOKENS, repeat=k):
+            texts.append(" ".join(toks))
+            if k > 1:
+                texts.append("".join(toks))
+    texts = list(dict.fromkeys(texts))
+    if n is not None and n < len(texts):
+        texts = ctx.rng.sample(texts, n)
+    return [{"kind": "match", "v": v, "expr": t, "terms": [], "pure": False, "enum": True}
+            for t in texts for v in (("1.2", "1.9", "1.10") if n is None else (ctx.rng.choice(["1.2", "1.9", "1.10"]),))]
 
 
 def gen_legal(ctx, pool, n):
@@ -814,9 +1070,40 @@ def run(ctx, sz=None):
         names += [L.render(L.random_conventional(ctx.rng)) for _ in range(4)]
         eval_names(ctx, list(dict.fromkeys(names)), tag="arbitrary")
     if pool and not ctx.out_of_time():
-        eval_small(ctx, gen_small(ctx, pool, sz["match"], sz["latest"]) + gen_legal(ctx, pool, sz["legal"]))
+        # the boundary of the conventional class (docs/notes/g10.md, C10_boundary_witness): a component `letters* 9+ letter …`
+        # is compared as a string with everything and no digit string sorts above it, so the order stays transitive when such
+        # components are added; any other digit run before a letter closes a cycle.  Not a clause of the property: counted only.
+        import re as _re
+        rng = ctx.rng
+        base = [nme for nme, _ in rng.sample(pool, min(len(pool), 70))]
+        nines, others = [], []
+        for nme in base[:50]:
+            parts = _re.split(r"([._])", nme.split("-")[0].split("+")[0])
+            i = rng.randrange(0, len(parts), 2)
+            lead = _re.match(r"[A-Za-z]*", parts[i]).group(0)
+            tail = rng.choice("abz") + rng.choice(["", "1", "9", "x2"])
+            nines.append("".join(parts[:i] + [lead + "9" * rng.choice([1, 1, 2]) + tail] + parts[i + 1:]))
+            others.append("".join(parts[:i] + [lead + rng.choice(["0", "1", "8", "19", "90"]) + tail] + parts[i + 1:]))
+        for tag, extra in (("boundary-nines", nines), ("boundary-other-digits", others)):
+            names = list(dict.fromkeys(base + extra))
+            isrt, _ = eval_names(ctx, names, tag=tag)
+            ok = [i for i in range(len(names)) if isrt[i][i] == "="]
+            ctx.hist("%s/intransitive-triples(first 50)" % tag, len(L.intransitive_triples(isrt, ok, limit=50)))
+        if ctx.histogram.get("boundary-nines/intransitive-triples(first 50)"):
+            ctx.note("the order is not transitive on conventional names + all-nines components: the characterisation in docs/notes/g10.md is wrong")
     if pool and not ctx.out_of_time():
-        eval_small(ctx, gen_stacks(ctx, pool, sz["stacks"]))
+        eval_chunks(ctx, gen_small(ctx, pool, sz["match"], sz["latest"]) + gen_legal(ctx, pool, sz["legal"])
+                    + gen_enum_exprs(ctx, sz["enum"]), 6000)
+    if pool and not ctx.out_of_time():
+        eval_chunks(ctx, gen_lists(ctx, pool, sz["lists"]), 60)
+        if not ctx.out_of_time():
+            for k, floor in (("list/tagged-version-fails-expression", 3), ("list/tagged-version-satisfies-expression", 3),
+                             ("list/latest-of-a-stack-fails-expression", 1), ("list/tags=none", 3), ("list/tags=latest", 1),
+                             ("list/arg=glob", 3), ("list/arg=none", 3), ("list/arg=bad", 1)):
+                if ctx.histogram.get(k, 0) < floor:
+                    raise common.InfraError("degenerate distribution: %d listing cases under %r (floor %d)" % (ctx.histogram.get(k, 0), k, floor))
+    if pool and not ctx.out_of_time():
+        eval_chunks(ctx, gen_stacks(ctx, pool, sz["stacks"]), 80)
     h = ctx.histogram
     if not ctx.out_of_time():
         for k in ("stack/branch=cache", "stack/branch=db", "stack/ties-inside-a-stack", "stack/string-order-differs-from-numeric-order", "stack/minver:some",
@@ -841,6 +1128,8 @@ def names_of(inp):
         return list(inp["names"])
     if inp.get("kind") == "stack":
         return [v for st in inp["stacks"] for v in st] + [t[1] for t in inp["terms"]]
+    if inp.get("kind") == "list":
+        return [d["ver"] for st in inp["stacks"] for d in st] + [t[1] for t in inp["terms"]]
     return []
 
 
@@ -881,7 +1170,13 @@ def search(ctx):
                     variants.append(dict(inp, expr="%s %s" % (t[0], t[1]), terms=[t], pure=True))
             eval_small(ctx, variants)
     if not ctx.failures and not ctx.out_of_time():
-        run(ctx, SIZES["search"])
+        sz = dict(SIZES["search"])
+        kinds = {dg["input"].get("kind") for dg in ctx.disagreements}
+        if "names" not in kinds:        # the comparator itself agrees: spend the budget on expressions and stacks
+            sz.update(g1404=SIZES["quick"]["g1404"], wide=SIZES["quick"]["wide"], arb_sets=SIZES["quick"]["arb_sets"])
+        elif ctx.time_left() < 120:     # a loaded machine: the whole 1,404 grammar alone would take what is left
+            sz.update(g1404=500)
+        run(ctx, sz)
 
 
 def replay(ctx, rp):
@@ -903,6 +1198,8 @@ def replay(ctx, rp):
     dis = sub_ctx.disagreements
     io_ = (dis[0]["impl_output"] if dis else (sub_ctx.failures[0]["impl_output"] if sub_ctx.failures else None))
     mo = (dis[0]["model_output"] if dis else (sub_ctx.failures[0]["model_output"] if sub_ctx.failures else None))
+    if io_ is None and c["kind"] == "list":
+        io_ = mo = impl_small_forked([c], 1)[0]["products"]
     if io_ is None:
         out = impl_small_forked([c], 1)[0]
         io_ = mo = out.get("r", {k: out[k] for k in ("idx", "err", "cache", "db") if k in out}) if "r" in out or "idx" in out or "err" in out else \
